@@ -309,6 +309,43 @@ def introspect (beh : ServerBehaviour) (output creatable : Bool) (w : World) : E
           else (.failure "No such file or directory", w)
         else (.success, { w with stdout := w.stdout ++ pretty j })
 
+/-! ## `introspect-schema`, the whole run -/
+
+/-- what clap hands to `main` for `introspect-schema` (`main.rs`, `Cli::IntrospectSchema`); `--no-ssl` only
+configures certificate checking and is not part of the model -/
+structure IntrospectArgs where
+  location : String
+  /-- `--output <path>` was given -/
+  output : Bool
+  authorization : Option String
+  /-- the `--header` arguments, as written, in order -/
+  headers : List String
+  isOneOf : Bool
+  specifyByUrl : Bool
+  deriving Repr, Inhabited
+
+/-- everything a run can be observed to do -/
+structure IntrospectRun where
+  exit : Exit
+  /-- the request `send()` is called with; `none` = the program ends before any network activity
+  (the type says "at most one request") -/
+  request : Option Request
+  world : World
+  deriving Repr, Inhabited
+
+/-- **`main` for `introspect-schema`**, a composition of `parseHeaderArgs` (clap, `Header::from_str` per argument),
+`buildRequest` (the request builder of `introspect_schema`, whose error surfaces in `send()` before anything is
+sent) and `introspect` (the reply handling).  `creatable` = `File::create` on the `--output` path succeeds. -/
+def introspectMain (a : IntrospectArgs) (beh : ServerBehaviour) (creatable : Bool) (w : World) : IntrospectRun :=
+  match parseHeaderArgs a.headers with
+  | .error e => { exit := e, request := none, world := w }
+  | .ok hs =>
+    match buildRequest a.location hs a.authorization a.isOneOf a.specifyByUrl with
+    | .error e => { exit := e, request := none, world := w }
+    | .ok r =>
+      let res := introspect beh a.output creatable w
+      { exit := res.1, request := some r, world := res.2 }
+
 /-! ## `generate` -/
 
 structure GenFlags where
